@@ -21,6 +21,7 @@ func extractAll(p *pkg, f *facts) {
 	drainFacts(p, f)
 	connFacts(p, f)
 	serverFacts(p, f)
+	glueFacts(p, f)
 }
 
 func (p *pkg) constNat(f *facts, leanName, goName string) {
